@@ -16,7 +16,7 @@ if not NATIVE:
         "insights.parsr": {"strings": True},
         "insights.parsr.iniparser": {"strings": True},
         "insights.parsr.query": {"strings": True, "after": {"intern": (lambda x: x)}},
-        "insights.core": {"strings": True, "dicts": True, "names": {"dict": K.SymKeyDict}, "after": {"OrderedDict": K.SymKeyDict}},
+        "insights.core": {"strings": True, "dicts": True, "names": {"dict": K.SymKeyDict, "set": K.SymKeySet}, "after": {"OrderedDict": K.SymKeyDict}},
     })
     instrument.DICT_FACTORY[0] = K.SymKeyDict
 
@@ -301,8 +301,12 @@ def make_search(nrows):
             val = sstr.fresh_str(en, "val%d" % t, 1 + en.choice("vallen%d" % t, 2 if field == "NAME" else 1), "abAB" if field == "NAME" else "xyX")
             kwargs[field + m] = val
             terms.append((field, m, val))
-        case = lambda mv: {"kind": "search", "rows": [dict((k, mv.str(v)) for k, v in r.items()) for r in rows], "terms": [[f, m, mv.str(v)] for f, m, v in terms]}  # noqa
+        # an earlier search, with the same keywords, over another table whose heading is spelled differently
+        prior = [None, "dash_key", "dash key"][en.choice("prior", 3)]
+        case = lambda mv: {"kind": "search", "rows": [dict((k, mv.str(v)) for k, v in r.items()) for r in rows], "terms": [[f, m, mv.str(v)] for f, m, v in terms], "prior": prior}  # noqa
         en.note_sample(case)
+        if prior:
+            H.keyword_search([{"NAME": "zz", prior: "q"}], **kwargs)
         out = H.keyword_search(rows, **kwargs)
         got = [i for i, r in enumerate(rows) if any(r is o for o in out)]
         T = lambda f: f if isinstance(f, bool) else truth(f)  # noqa
@@ -339,8 +343,13 @@ def make_ini():
         lines += ["[main]", cat("e", c1, "y", sep, v1), "; a comment", "", "# another = comment"]
         if dup_in_section:
             lines.append(cat("E", c2, "Y", sep, v2))
+        third = en.flag("third_in_section")
+        if third:
+            # a spelling that occurred before comes back after a different one (x X x)
+            v4 = sstr.fresh_str(en, "v4", 1, "ab1")
+            lines.append(cat("e", sstr.fresh_str(en, "c3", 1, "kK"), "y", sep, v4))
         lines += ["[main]" if same_section else "[other]", cat("e", c2, "y", sep, v3), "plain%sP" % sep]
-        case = lambda mv: {"kind": "ini", "lines": [mv.str(x) for x in lines], "same_section": same_section, "dup": dup_in_section, "default": with_default}  # noqa
+        case = lambda mv: {"kind": "ini", "lines": [mv.str(x) for x in lines], "same_section": same_section, "dup": dup_in_section, "default": with_default, "third": third}  # noqa
         en.note_sample(case)
         from insights.tests import context_wrap
         ini = IniConfigFile(context_wrap(lines))
@@ -351,6 +360,8 @@ def make_ini():
         exp_main = v1
         if dup_in_section:
             exp_main = v2
+        if third:
+            exp_main = v4
         if same_section:
             exp_main = v3
         got = ini.get("main", "EKY")
@@ -439,6 +450,8 @@ def _native(case):
             bad.append("optlist %r" % (out,))
     elif kind == "search":
         kwargs = dict((f + m, v) for f, m, v in case["terms"])
+        if case.get("prior"):
+            H.keyword_search([{"NAME": "zz", case["prior"]: "q"}], **kwargs)
         out = H.keyword_search(case["rows"], **kwargs)
         exp = [r for r in case["rows"] if all(ref_match(m, r["dash-key" if f == "dash_key" else f], v) for f, m, v in case["terms"])]
         if out != exp:
